@@ -54,11 +54,11 @@ theorem resolvers_handlers_known :
 /-- prefixes, the `://` test, the `~` prefix and the literals of the two map resolvers are the modelled ones -/
 theorem constants_are_modelled :
     CV.Gen.paths_remotePrefixes.map String.toList = remotePrefixes ∧
-    CV.Gen.paths_contextLits.map String.toList = [schemeSep] ∧
+    CV.Gen.paths_contextLits = ["unexpected type %T", "://"] ∧ "://".toList = schemeSep ∧
     CV.Gen.paths_expandUserLits.head? = some "~" ∧
     CV.Gen.paths_volumeMountLits = ["type", "source", "invalid mount config for type \"bind\": field Source must not be empty", "source"] ∧
     CV.Gen.types_VolumeTypeBind = "bind" ∧
-    CV.Gen.paths_driverOptsLits = ["driver", "local", "driver_opts", "device", "o", "bind", "device"] := by decide
+    CV.Gen.paths_driverOptsLits = ["unexpected type %T", "driver", "local", "driver_opts", "unexpected type %T", "device", "o", "bind", "device"] := by decide
 
 /-! ## `filepath.Clean` / `Join` (lexical, modelled in full) -/
 
@@ -145,19 +145,20 @@ theorem winabs_untouched_for_mounts (cfg : Cfg) (s : Str) (h : isWindowsAbs? s =
 /-- … and only for those: for the other kinds a Windows-absolute value is an ordinary relative path -/
 theorem winabs_is_relative_elsewhere (cfg : Cfg) (s : Str) (ha : isAbs s = false) (hne : s ≠ []) (ht : tilde s = false)
     (hu : Spec.urlLike s = false) (hr : cfg.remote s = false) :
-    resolveStr .localPath cfg s = .ok (join cfg.wd s) ∧ resolveStr .context cfg s = .ok (join cfg.wd s) ∧
-    resolveStr .extendsFile cfg s = .ok (join cfg.wd s) := by
+    resolveStr .localPath cfg s = .ok (joinWd cfg.wd s) ∧ resolveStr .context cfg s = .ok (joinWd cfg.wd s) ∧
+    resolveStr .extendsFile cfg s = .ok (joinWd cfg.wd s) := by
   refine ⟨?_, ?_, ?_⟩
   · simp [resolveStr, absPathStr_relative cfg s ha hne ht]
   · simp only [resolveStr, Out.ok.injEq]
     rw [absContextStr_local cfg s hu, absPathStr_relative cfg s ha hne ht]
   · simp [resolveStr, absExtendsStr, hr, absPathStr_relative cfg s ha hne ht]
 
-/-- a relative value becomes the base directory joined with it (lexically cleaned) -/
-theorem relative_is_join (k : Kind) (cfg : Cfg) (s : Str) (ha : isAbs s = false) (hne : s ≠ []) (ht : tilde s = false)
+/-- a relative value becomes the base directory joined with it (`joinWd`: lexically cleaned; against a *relative*
+base a leading `./` is kept where the result would otherwise be re-read as `~`, remote or Windows-absolute) -/
+theorem relative_is_guarded_join (k : Kind) (cfg : Cfg) (s : Str) (ha : isAbs s = false) (hne : s ≠ []) (ht : tilde s = false)
     (hu : k = .context → Spec.urlLike s = false) (hr : k = .extendsFile → cfg.remote s = false)
     (hw : k = .mount → isWindowsAbs? s = some false) :
-    resolveStr k cfg s = .ok (join cfg.wd s) := by
+    resolveStr k cfg s = .ok (joinWd cfg.wd s) := by
   cases k with
   | localPath => simp [resolveStr, absPathStr_relative cfg s ha hne ht]
   | context =>
@@ -165,6 +166,28 @@ theorem relative_is_join (k : Kind) (cfg : Cfg) (s : Str) (ha : isAbs s = false)
     rw [absContextStr_local cfg s (hu rfl), absPathStr_relative cfg s ha hne ht]
   | extendsFile => simp [resolveStr, absExtendsStr, hr rfl, absPathStr_relative cfg s ha hne ht]
   | mount => exact maybeUnixStr_relative cfg s ha ht (hw rfl)
+
+/-- **against an absolute base a relative value becomes exactly `Join(base, value)`** -/
+theorem relative_is_join (k : Kind) (cfg : Cfg) (s : Str) (hwd : isAbs cfg.wd = true)
+    (ha : isAbs s = false) (hne : s ≠ []) (ht : tilde s = false)
+    (hu : k = .context → Spec.urlLike s = false) (hr : k = .extendsFile → cfg.remote s = false)
+    (hw : k = .mount → isWindowsAbs? s = some false) :
+    resolveStr k cfg s = .ok (join cfg.wd s) := by
+  rw [relative_is_guarded_join k cfg s ha hne ht hu hr hw, joinWd_of_abs _ _ hwd]
+
+/-- the guard of a relative result is the specification's `localize` -/
+theorem joinWd_is_localized_join (wd s : Str) : joinWd wd s = Spec.localize (join wd s) := by
+  have : ambiguous (join wd s) = Spec.reread (join wd s) := by
+    have hw : isWindowsAbsT (join wd s) = Spec.winAbs (join wd s) := by
+      have h1 := isWindowsAbs_eq_T (join wd s)
+      rw [isWindowsAbs_eq_spec] at h1
+      exact (Option.some.inj h1).symm
+    simp [ambiguous, Spec.reread, hw]
+  simp [joinWd, Spec.localize, this]
+
+/-- a guarded result denotes the same path: joining it onto any directory ignores the `./` -/
+theorem guarded_join_same_path (W R v : Str) (hW : W ≠ []) : join W (joinWd R v) = join W (join R v) :=
+  join_joinWd W R v hW
 
 /-- with a non-empty base, "joined" is `Clean(base + "/" + value)` -/
 theorem join_is_clean_concat (wd s : Str) (h : wd ≠ []) : join wd s = clean (wd ++ '/' :: s) := join_of_ne wd s h
@@ -238,7 +261,8 @@ theorem model_meets_spec (k : Kind) (cfg : Cfg) (s r : Str)
     exact winabs_untouched_for_mounts cfg s (by rw [isWindowsAbs_eq_spec, h6.2])
   simp only [h6, if_false, Option.some.injEq] at h
   subst h
-  refine relative_is_join k cfg s (by simpa using h5) h3 (by simp [tilde, h4]) hu hr (fun e => ?_)
+  rw [← joinWd_is_localized_join]
+  refine relative_is_guarded_join k cfg s (by simpa using h5) h3 (by simp [tilde, h4]) hu hr (fun e => ?_)
   rw [isWindowsAbs_eq_spec]
   cases hw : winAbs s with
   | false => rfl
@@ -272,7 +296,7 @@ theorem resolved_abs_or_exempt (k : Kind) (cfg : Cfg) (s r : Str) (hwd : isAbs c
     rcases absPathStr_cases cfg s with ⟨h1, h2⟩ | ⟨h1, _⟩ | ⟨_, _, h2⟩
     · rw [h2]; exact h1
     · exact absurd h1 hv
-    · rw [h2]; exact isAbs_join _ _ hwd
+    · rw [h2, joinWd_of_abs _ _ hwd]; exact isAbs_join _ _ hwd
   cases k with
   | localPath =>
     simp only [resolveStr, Out.ok.injEq] at h
@@ -310,6 +334,7 @@ theorem resolved_abs_or_exempt (k : Kind) (cfg : Cfg) (s r : Str) (hwd : isAbs c
             have hia : isAbs ('~' :: rest) = false := by simp [isAbs]
             simp only [hia, Bool.false_eq_true, if_false, Out.ok.injEq] at h
             subst h
+            rw [joinWd_of_abs _ _ hwd]
             exact .inl (isAbs_join _ _ hwd)
           | some hm =>
             rw [maybeUnixStr_tilde cfg hm rest hh (hhome hm hh)] at h
@@ -332,6 +357,7 @@ theorem resolved_abs_or_exempt (k : Kind) (cfg : Cfg) (s r : Str) (hwd : isAbs c
           | false =>
             simp only [Out.ok.injEq] at h
             subst h
+            rw [joinWd_of_abs _ _ hwd]
             exact .inl (isAbs_join _ _ hwd)
 
 example : resolveStr .mount ⟨['/', 'w'], none, fun _ => false, some⟩ ['C', ':', '\\', 'x'] = .ok ['C', ':', '\\', 'x'] := by decide
@@ -402,87 +428,76 @@ theorem resolve_idem (cfg : Cfg) (hok : IdemOK cfg) (v v' : Val) (h : resolve cf
 example : IdemOK ⟨['/', 'w'], none, fun _ => false, some⟩ :=
   ⟨by decide, fun s r h => by simp only [Option.some.injEq] at h; subst h; simp⟩
 
-/-! ## two-stage resolution (include / extends) = one-stage resolution against the joined directory -/
+/-! ## no resolver panics -/
 
-/-- the full-strength statement is false on the unchanged tree (`Neg/C12.lean`): a first-stage result that starts
-with `~`, looks remote or looks Windows-absolute is misread by the second stage -/
-theorem resolve_compose_refuted :
-    ¬ (∀ (home : Option Str) (W R s : Str), isAbs W = true → R ≠ [] → isAbs R = false →
-        absPathStr ⟨W, home, fun _ => false, some⟩ (absPathStr ⟨R, home, fun _ => false, some⟩ s)
-          = absPathStr ⟨join W R, home, fun _ => false, some⟩ s) := by
-  intro h
-  exact Neg.compose_fails_tilde_dir (h Neg.H Neg.W ['~'] ['x'] (by decide) (by decide) (by decide))
+/-- **path resolution never panics**, whatever the shape of the tree (the unchecked type assertions of
+`absContextPath`, `absExtendsPath`, `maybeUnixPath`, `absVolumeMount`, `volumeDriverOpts` were replaced by errors) -/
+theorem resolve_never_panics (cfg : Cfg) (v : Val) (s : String) : resolve cfg v ≠ .panic s :=
+  walk_no_panic _ (by decide) cfg _ v s
 
-/-- env/label files, watch paths: provided the first-stage value does not start with `~` -/
-theorem resolve_compose_partial (home : Option Str) (remote : Str → Bool) (sym : Str → Option Str) (W R s : Str)
-    (hW : W ≠ []) (hR : R ≠ []) (hRr : isAbs R = false)
-    (hplain : tilde (absPathStr ⟨R, home, remote, sym⟩ s) = false) :
+/-- a value of the wrong kind at a path attribute is an error of class `unexpectedType` -/
+theorem wrong_kind_is_error (cfg : Cfg) (n : Int) :
+    absContextPath cfg (.int n) = .err "unexpectedType" ∧ absExtendsPath cfg .null = .err "unexpectedType" ∧
+    maybeUnixPath cfg (.seq []) = .err "unexpectedType" ∧ volumeDriverOpts cfg (.str "x") = .err "unexpectedType" := by
+  simp [absContextPath, absExtendsPath, maybeUnixPath, volumeDriverOpts]
+
+/-! ## two-stage resolution (include / extends) = one-stage resolution against the joined directory
+
+Included and extended files are resolved first against a directory `R` relative to the project directory, then —
+with the rest of the model — against the project directory `W`.  Before the round-2 repair this was *not* the same
+as resolving against `Join(W, R)` (`Neg/C12.lean`: `compose_failed_*`, about the resolvers as they were). -/
+
+/-- env/label files, watch paths -/
+theorem resolve_compose (home : Option Str) (remote : Str → Bool) (sym : Str → Option Str) (W R s : Str)
+    (hW : W ≠ []) (hR : R ≠ []) (hRr : isAbs R = false) :
     absPathStr ⟨W, home, remote, sym⟩ (absPathStr ⟨R, home, remote, sym⟩ s) =
       absPathStr ⟨join W R, home, remote, sym⟩ s :=
-  absPathStr_compose home remote sym W R s hW hR hRr hplain
+  absPathStr_compose home remote sym W R s hW hR hRr
 
-example : tilde (absPathStr ⟨['s', 'u', 'b'], none, fun _ => false, some⟩ ['.', '/', 'x']) = false := by decide
-
-/-- build contexts: provided the first-stage value neither starts with `~` nor looks remote -/
-theorem resolve_compose_context_partial (home : Option Str) (remote : Str → Bool) (sym : Str → Option Str) (W R s : Str)
-    (hW : W ≠ []) (hR : R ≠ []) (hRr : isAbs R = false)
-    (hplain : tilde (absContextStr ⟨R, home, remote, sym⟩ s) = false)
-    (hlocal : Paths.urlLike s = false → Paths.urlLike (absContextStr ⟨R, home, remote, sym⟩ s) = false) :
+/-- build contexts -/
+theorem resolve_compose_context (home : Option Str) (remote : Str → Bool) (sym : Str → Option Str) (W R s : Str)
+    (hW : W ≠ []) (hR : R ≠ []) (hRr : isAbs R = false) (hhome : ∀ h, home = some h → h ≠ []) :
     absContextStr ⟨W, home, remote, sym⟩ (absContextStr ⟨R, home, remote, sym⟩ s) =
-      absContextStr ⟨join W R, home, remote, sym⟩ s := by
-  cases hu : Paths.urlLike s with
-  | true => rw [absContextStr_url _ s hu, absContextStr_url _ s hu, absContextStr_url _ s hu]
-  | false =>
-    have h2 := hlocal hu
-    rw [absContextStr_local _ s hu] at hplain h2 ⊢
-    rw [absContextStr_local _ _ h2, absContextStr_local _ s hu]
-    exact absPathStr_compose home remote sym W R s hW hR hRr hplain
+      absContextStr ⟨join W R, home, remote, sym⟩ s :=
+  absContextStr_compose home remote sym W R s hW hR hRr hhome
 
-/-- mount sources, secret/config files, bind devices: provided the first-stage value neither starts with `~` nor
-looks Windows-absolute -/
-theorem resolve_compose_mount_partial (home : Option Str) (remote : Str → Bool) (sym : Str → Option Str) (W R s m : Str)
+/-- mount sources, secret/config files, bind devices -/
+theorem resolve_compose_mount (home : Option Str) (remote : Str → Bool) (sym : Str → Option Str) (W R s m : Str)
     (hW : W ≠ []) (hR : R ≠ []) (hRr : isAbs R = false)
-    (h1 : maybeUnixStr ⟨R, home, remote, sym⟩ s = .ok m)
-    (hplain : tilde m = false ∧
-      (isAbs (expandUser home s) = false → isWindowsAbs? (expandUser home s) = some false → isWindowsAbs? m = some false)) :
+    (h1 : maybeUnixStr ⟨R, home, remote, sym⟩ s = .ok m) :
     maybeUnixStr ⟨W, home, remote, sym⟩ m = maybeUnixStr ⟨join W R, home, remote, sym⟩ s :=
-  maybeUnixStr_compose home remote sym W R s m hW hR hRr h1 hplain
+  maybeUnixStr_compose home remote sym W R s m hW hR hRr h1
 
-/-- **whole trees**: if at every path-attribute node the second stage composes with the first (`ComposeAt`), then
-resolving the stage-1 result against `W` is resolving the original tree against `Join(W, R)` — same result tree,
-same error, same panic -/
-theorem resolve_compose_tree (c1 c2 c12 : Cfg) (v v1 : Val)
-    (hr : RowsOK (ComposeAt c1 c2 c12) CV.Gen.resolvers TPath.root v) (h : resolve c1 v = .ok v1) :
-    resolve c2 v1 = resolve c12 v :=
-  walk_compose _ c1 c2 c12 _ v v1 hr h
+/-- the witnesses that refuted the statement before the repair now satisfy it -/
+example : absPathStr ⟨Neg.W, Neg.H, fun _ => false, some⟩ (absPathStr ⟨['~'], Neg.H, fun _ => false, some⟩ ['x'])
+    = ['/', 'w', '/', '~', '/', 'x'] := by decide
 
-/-- `ComposeAt` holds at a string-valued env_file / label_file node whose first-stage value does not start with `~` … -/
-theorem compose_at_local (home : Option Str) (remote : Str → Bool) (W R : Str) (hW : W ≠ []) (hR : R ≠ [])
-    (hRr : isAbs R = false) (s : String) (hplain : tilde (absPathStr ⟨R, home, remote, some⟩ s.toList) = false) :
-    ComposeAt ⟨R, home, remote, some⟩ ⟨W, home, remote, some⟩ ⟨join W R, home, remote, some⟩ "absPath" (.str s) ∧
-    ComposeAt ⟨R, home, remote, some⟩ ⟨W, home, remote, some⟩ ⟨join W R, home, remote, some⟩ "absSymbolicLink" (.str s) :=
-  ⟨composeAt_absPath home remote W R hW hR hRr s hplain, composeAt_absSymbolicLink home remote W R hW hR hRr s hplain⟩
+/-- at every node matched by a row, for every resolver, the second stage composes with the first
+(no remote resource loaders — the default —, no symbolic links) -/
+theorem compose_at_every_node (home : Option Str) (W R : Str) (hW : W ≠ []) (hR : R ≠ []) (hRr : isAbs R = false)
+    (hhome : ∀ h, home = some h → h ≠ []) (hn : String) (v : Val) :
+    ComposeAt ⟨R, home, fun _ => false, some⟩ ⟨W, home, fun _ => false, some⟩ ⟨join W R, home, fun _ => false, some⟩ hn v :=
+  composeAt_all home (fun _ => false) W R hW hR hRr hhome (fun _ => rfl) hn v
 
-/-- … at a build context whose first-stage value neither starts with `~` nor looks remote … -/
-theorem compose_at_context (home : Option Str) (remote : Str → Bool) (W R : Str) (hW : W ≠ []) (hR : R ≠ [])
-    (hRr : isAbs R = false) (s : String)
-    (hplain : tilde (absContextStr ⟨R, home, remote, some⟩ s.toList) = false)
-    (hlocal : Paths.urlLike s.toList = false → Paths.urlLike (absContextStr ⟨R, home, remote, some⟩ s.toList) = false) :
-    ComposeAt ⟨R, home, remote, some⟩ ⟨W, home, remote, some⟩ ⟨join W R, home, remote, some⟩ "absContextPath" (.str s) :=
-  composeAt_absContextPath home remote W R hW hR hRr s hplain hlocal
+/-- **whole trees, full strength**: resolving against the relative directory `R` and then against `W` is resolving
+against `Join(W, R)` — same result tree, same error — for every tree, every non-empty `W`, every non-empty relative `R` -/
+theorem resolve_compose_tree (home : Option Str) (W R : Str) (hW : W ≠ []) (hR : R ≠ []) (hRr : isAbs R = false)
+    (hhome : ∀ h, home = some h → h ≠ []) (v v1 : Val)
+    (h : resolve ⟨R, home, fun _ => false, some⟩ v = .ok v1) :
+    resolve ⟨W, home, fun _ => false, some⟩ v1 = resolve ⟨join W R, home, fun _ => false, some⟩ v :=
+  walk_compose _ _ _ _ _ v v1
+    ((rowsOK_of_forall _ (compose_at_every_node home W R hW hR hRr hhome) _).1 _ v) h
 
-/-- … and at a secret / config file whose first-stage value neither starts with `~` nor looks Windows-absolute -/
-theorem compose_at_mount (home : Option Str) (remote : Str → Bool) (W R : Str) (hW : W ≠ []) (hR : R ≠ [])
-    (hRr : isAbs R = false) (s : String) (m : Str)
-    (h1 : maybeUnixStr ⟨R, home, remote, some⟩ s.toList = .ok m)
-    (hplain : tilde m = false ∧ (isAbs (expandUser home s.toList) = false →
-      isWindowsAbs? (expandUser home s.toList) = some false → isWindowsAbs? m = some false)) :
-    ComposeAt ⟨R, home, remote, some⟩ ⟨W, home, remote, some⟩ ⟨join W R, home, remote, some⟩ "maybeUnixPath" (.str s) :=
-  composeAt_maybeUnixPath home remote W R hW hR hRr s m h1 hplain
-
-/-- non-vacuity: directory `sub`, secret file `x` — the hypotheses of `compose_at_mount` hold -/
-example :
-    maybeUnixStr ⟨['s', 'u', 'b'], none, fun _ => false, some⟩ ['x'] = .ok ['s', 'u', 'b', '/', 'x'] ∧
-    tilde ['s', 'u', 'b', '/', 'x'] = false ∧ isWindowsAbs? ['s', 'u', 'b', '/', 'x'] = some false := by decide
+/-- three stages (include inside include, extends inside include): still the joined directory -/
+theorem resolve_compose_tree_twice (home : Option Str) (W R1 R2 : Str) (hW : W ≠ []) (h1 : R1 ≠ []) (h1r : isAbs R1 = false)
+    (h2 : R2 ≠ []) (h2r : isAbs R2 = false) (hhome : ∀ h, home = some h → h ≠ []) (v va vb : Val)
+    (ha : resolve ⟨R2, home, fun _ => false, some⟩ v = .ok va)
+    (hb : resolve ⟨R1, home, fun _ => false, some⟩ va = .ok vb) :
+    resolve ⟨W, home, fun _ => false, some⟩ vb = resolve ⟨join W (join R1 R2), home, fun _ => false, some⟩ v := by
+  have e1 := resolve_compose_tree home R1 R2 h1 h2 h2r hhome v va ha
+  rw [hb] at e1
+  have hj : join R1 R2 ≠ [] := join_ne_nil _ _ h1
+  have hjr : isAbs (join R1 R2) = false := isAbs_join_rel _ _ h1 h1r
+  exact resolve_compose_tree home W (join R1 R2) hW hj hjr hhome v vb e1.symm
 
 end CV.Paths
